@@ -59,6 +59,7 @@ class Unit:
         self.edits = []       # executable-text edits (outline/havoc/closure)
         self.macro_rewrites = []
         self.clauses = []     # contract clauses with labels
+        self.count_only = None
         self.rlimit = 10      # Verus --rlimit for this unit (default 10)
         self.hints_lost = {}  # fn -> [messages]: proof scaffolding whose anchor no longer exists
         self.template = None
@@ -237,6 +238,9 @@ def _match_at(toks, i, hi, pat, k, b):
                     if e is not None:
                         b.clear()
                         b.update(b2)
+                        # remember what the wildcard matched (token range), for `$$1`, `$$2`, ... in replacements
+                        nwild = len([x for x in pat[:k + 1] if x[0] == "*"])
+                        b["$$%d" % nwild] = (i, j)
                         return e
                 if j >= hi:
                     return None
@@ -282,6 +286,10 @@ def _find_pattern(sf, lo, hi, pat_text, what, binds=None):
         b = dict(binds or {})
         e = _match_at(toks, i, hi, pat, 0, b)
         if e is not None and e > i:
+            for key in list(b.keys()):
+                if key.startswith("$$") and isinstance(b[key], tuple):
+                    a0, a1 = b[key]
+                    b[key] = sf.text[toks[a0].start:toks[a1 - 1].end] if a1 > a0 else ""
             hits.append(i)
             all_b.append(b)
             ends.append(e)
@@ -294,6 +302,7 @@ def _find_pattern(sf, lo, hi, pat_text, what, binds=None):
 
 
 def _subst(text, binds):
+    text = re.sub(r"\$\$([0-9]+)", lambda m: binds.get("$$" + m.group(1), m.group(0)), text)
     return re.sub(r"\$([A-Za-z_][A-Za-z0-9_]*)", lambda m: binds.get(m.group(1), m.group(0)), text)
 
 
@@ -325,6 +334,11 @@ def expand(template_path, repo, vacuity=False):
         d = s[4:].strip()
         if d.startswith("UNIT"):
             unit.name = d.split()[1]
+            i += 1
+            continue
+        if d.startswith("COUNTONLY"):
+            # this unit re-verifies shared text; only the listed functions are counted as its obligations
+            unit.count_only = set(d.split()[1:])
             i += 1
             continue
         if d.startswith("RLIMIT"):
@@ -469,18 +483,39 @@ def _pubfields(sf, kw, en, base_off):
     return text
 
 
-def _preprocess(path, depth):
-    """expand `//@@ INCLUDE <file>` textually; returns (lines, [(file, line)])"""
+def _preprocess(path, depth, defines=None):
+    """expand `//@@ INCLUDE <file>` textually and resolve `//@@ DEFINE X` / `//@@ IFDEF X` / `//@@ IFNDEF X` /
+    `//@@ ELSE` / `//@@ ENDIF`; returns (lines, [(file, line)])"""
     if depth > 5:
         raise GenError("INCLUDE nesting too deep at %s" % path)
+    if defines is None:
+        defines = set()
     with open(path, encoding="utf-8") as f:
         raw = f.read().split("\n")
     lines, tmap = [], []
+    stack = []   # list of booleans: is the current block active
     for n, l in enumerate(raw, 1):
         s = l.strip()
+        active = all(stack)
+        if s.startswith("//@@ IFDEF") or s.startswith("//@@ IFNDEF"):
+            name = s.split()[2]
+            cond = (name in defines) if s.startswith("//@@ IFDEF") else (name not in defines)
+            stack.append(cond)
+            continue
+        if s.startswith("//@@ ELSE"):
+            stack[-1] = not stack[-1]
+            continue
+        if s.startswith("//@@ ENDIF"):
+            stack.pop()
+            continue
+        if not active:
+            continue
+        if s.startswith("//@@ DEFINE"):
+            defines.add(s.split()[2])
+            continue
         if s.startswith("//@@ INCLUDE"):
             inc = os.path.join(os.path.dirname(path), s.split()[2])
-            il, im = _preprocess(inc, depth + 1)
+            il, im = _preprocess(inc, depth + 1, defines)
             lines.extend(il)
             tmap.extend(im)
         else:
